@@ -106,8 +106,10 @@ func dbsimGen(r *rand.Rand, mode string, thorough bool) dbCase {
 		if mode == "lineage" || mode == "resources" {
 			knobs.Advance = pick(r, 1, 2, 4)
 		}
-		c.Sessions = append(c.Sessions, dbSession{Opts: opts, Clients: [][]dbOp{prog}, Knobs: knobs, RelPath: mode != "resources" && r.Intn(6) == 0, Symlink: mode != "resources" && r.Intn(8) == 0})
+		knobs.UnlockYield = r.Intn(4) == 0
+		c.Sessions = append(c.Sessions, dbSession{Opts: opts, Clients: [][]dbOp{prog}, Knobs: knobs, RelPath: mode != "resources" && r.Intn(6) == 0, Symlink: mode != "resources" && r.Intn(8) == 0, EarlyClose: r.Intn(8) == 0})
 	}
+	c.OddName = r.Intn(8) == 0
 	return c
 }
 
@@ -134,6 +136,7 @@ type dbsimOutcome struct {
 
 // runDBCase executes the case and evaluates the map oracle.
 func runDBCase(c *Ctx, dc dbCase, tape *simrt.Tape, mode string) dbsimOutcome {
+	c.oddNames = dc.OddName
 	dir := freshDir(c, "db")
 	defer os.RemoveAll(dir)
 	r := newDBRunner(c.T, dir, tape, dc.Keys)
